@@ -164,6 +164,10 @@ def s2_tables(ctx):
                 ctx.violation('C15.S2', inst, fn.site(), 'silent acceptance on path [%s]%s' % (
                     cond_str(bad[0]), (' (the guard also depends on: %s)' % ', '.join(sorted(set(v.unknown))[:4])) if v.unknown else ''),
                     key='C15.S2|%s|%s|accept' % (qn, name))
+            elif wrong and v.unknown and any(p_.outcome == 'raise' and p_.state.exc[0] == 'raise' and p_.state.exc[1] == exp for p_ in ps):
+                # the documented refusal is there; another one is reached only through a test this table does not decide (an unknown-id check spelled over storage
+                # the table knows nothing about): which of the two applies to the invalid request at hand is not established
+                ctx.undecided('C15.S2', inst, wrong[0].state.exc[2], 'refused with %s or %s depending on %s' % (exp, wrong[0].state.exc[1], ', '.join(sorted(set(v.unknown))[:3])))
             elif wrong:
                 ctx.violation('C15.S2', inst, wrong[0].state.exc[2], 'refused with %s instead of the documented %s' % (wrong[0].state.exc[1], exp),
                               key='C15.S2|%s|%s|type' % (qn, name))
